@@ -44,7 +44,7 @@ struct E4 : Engine {
 		int nops = mode == "conc" ? 6 + r.below(thorough ? 24 : 16) : 5 + r.below(thorough ? 60 : 25);
 		J ops = J::arr();
 		for(int i=0;i<nops;i++){ J o = J::obj(); o["c"] = (int)r.below(nc); o["t"] = (int)r.below(2); unsigned y = r.below(100);
-			if(y < 34){ o["op"] = "store"; o["k"] = koff + (int)r.below(nkeys); J tr = J::arr(); if(nul_trig && r.below(3) == 0) tr.push(8); int nt = ntrig ? r.below(3) : 0; for(int k=0;k<nt;k++) tr.push((int)r.below(ntrig)); if(r.below(8) == 0) tr.push(100 + koff + (int)r.below(nkeys)); if(r.below(25) == 0) for(int k=0;k<30;k++) tr.push(50+k); if(r.below(30) == 0) tr.push(7); o["trig"] = tr;
+			if(y < 34){ o["op"] = "store"; o["k"] = koff + (int)r.below(nkeys); J tr = J::arr(); if(nul_trig && r.below(3) == 0) tr.push(8); int nt = ntrig ? r.below(3) : 0; for(int k=0;k<nt;k++) tr.push((int)r.below(ntrig)); if(r.below(8) == 0) tr.push(100 + koff + (int)r.below(nkeys)); if(r.below(25) == 0) for(int k=0;k<30;k++) tr.push(50+k); if(r.below(30) == 0) tr.push(7); o["trig"] = tr; if(i > 0 && r.below(6) == 0) o["dup"] = (int)r.below(i);
 				o["dl"] = r.below(10) == 0 ? -1 : r.below(12) == 0 ? 1000000000 : 5 + (int)r.below(100); unsigned z = r.below(10); o["len"] = z == 0 ? 0 : z < 7 ? (int)r.below(60) : z < 9 ? (int)r.below(p.geti("chan_cap") < 200 ? 300 : 4000) : (int)r.below(p.geti("chan_cap") < 200 ? 600 : thorough ? 100000 : 30000); o["fill"] = (int)r.below(3); }
 			else if(y < 76){ o["op"] = "fetch"; o["k"] = koff + (int)r.below(nkeys); o["how"] = (int)r.below(4); }
 			else if(y < 86){ o["op"] = "rise"; o["tr"] = nul_trig && r.below(2) ? 8 : r.below(3) == 0 ? 100 + koff + (int)r.below(nkeys) : (ntrig ? (int)r.below(ntrig) : 100); }
@@ -94,10 +94,14 @@ struct E4 : Engine {
 		// verdicts (linearizability, stats, key distribution), when the plan uses such a name at all.
 		bool any_nul = false; std::set<std::string> nul_tainted; std::string fail_key; bool fail_is_fetch = false;
 		{ auto has_nul = [](const std::string &x){ return x.find('\0') != std::string::npos; }; const J &jo = plan.get("ops");
+			std::vector<std::string> skey(jo.size()); std::vector<int> snul(jo.size(),-1);   // per store op: effective key and whether a NUL name is involved ("dup" repeats an earlier store)
 			for(size_t i=0;i<jo.size() && i<200;i++){ const J &o = jo.a[i]; std::string k = o.gets("op"); bool n = false;
 				if(k == "rise"){ if(has_nul(trig_of((int)o.geti("tr")))) any_nul = true; continue; }
-				if(k != "store" && k != "fetch") continue; std::string key = key_of((int)o.geti("k")); if(has_nul(key)) n = true;
-				if(k == "store"){ const J &tr = o.get("trig"); for(size_t j=0;j<tr.size() && j<64;j++) if(has_nul(trig_of((int)tr.a[j].as_int()))) n = true; }
+				if(k != "store" && k != "fetch") continue; std::string key = key_of((int)o.geti("k"));
+				if(k == "store"){ const J &tr = o.get("trig"); for(size_t j=0;j<tr.size() && j<64;j++) if(has_nul(trig_of((int)tr.a[j].as_int()))) n = true;
+					if(o.has("dup")){ size_t j = (size_t)std::max<int64_t>(0,o.geti("dup")); if(j < i && snul[j] >= 0){ key = skey[j]; n = snul[j] > 0; } } }
+				if(has_nul(key)) n = true;
+				if(k == "store"){ skey[i] = key; snul[i] = n; }
 				if(n){ any_nul = true; nul_tainted.insert(key); } } }
 		// stale detection in fault mode: for every key the set of values that were current at some time >= the start of the fetch
 		std::map<std::string,std::vector<std::string>> superseded;   // key -> values known to be dead (replaced / invalidated / lost)
@@ -116,7 +120,9 @@ struct E4 : Engine {
 			const J &jops = plan.get("ops"); std::vector<Op> ops; std::vector<std::pair<int,int>> who; std::vector<int> ticks;
 			for(size_t i=0;i<jops.size() && i<200;i++){ const J &o = jops.a[i]; Op op; op.kind = o.gets("op"); op.how = (int)o.geti("how"); op.thread = 0;
 				if(op.kind == "rise") op.key = trig_of((int)o.geti("tr")); else op.key = key_of((int)o.geti("k"));
-				if(op.kind == "store"){ const J &tr = o.get("trig"); for(size_t j=0;j<tr.size() && j<64;j++) op.trig.insert(trig_of((int)tr.a[j].as_int())); int64_t dl = o.geti("dl"); op.deadline = dl < 0 ? now - 1 : now + dl; op.val = value_of((int)i,(int)std::min<int64_t>(o.geti("len"),200000),(int)o.geti("fill")); if(op.val.empty() && r_nonempty_marker) {} }
+				if(op.kind == "store"){ const J &tr = o.get("trig"); for(size_t j=0;j<tr.size() && j<64;j++) op.trig.insert(trig_of((int)tr.a[j].as_int())); int64_t dl = o.geti("dl"); op.deadline = dl < 0 ? now - 1 : now + dl; op.val = value_of((int)i,(int)std::min<int64_t>(o.geti("len"),200000),(int)o.geti("fill")); if(op.val.empty() && r_nonempty_marker) {}
+					// an exact repetition of an earlier store (same key, bytes, triggers, absolute deadline): whatever a node still holds of the first one must not short-cut the second
+					if(o.has("dup")){ size_t j = (size_t)std::max<int64_t>(0,o.geti("dup")); if(j < ops.size() && ops[j].kind == "store"){ op.key = ops[j].key; op.val = ops[j].val; op.trig = ops[j].trig; op.deadline = ops[j].deadline; } } }
 				int c = (int)(((o.geti("c") % (int64_t)nc) + nc) % nc), t = (int)(o.geti("t") & 1); op.thread = c*2 + t;
 				ops.push_back(op); who.push_back({c,t}); ticks.push_back(op.kind == "tick" ? (int)std::max<int64_t>(0,std::min<int64_t>(o.geti("s"),100000)) : 0); }
 			// faults
